@@ -140,6 +140,12 @@ def analyse(D: decoders.Decoders, e, run: Run, facts_out=None) -> int:
                         ks = {a[1] for a in classify(x) if a[0] == "START"}
                         if ks - {p}:
                             opaque_fn = x.a[0].a[0]        # it is handed START words of other positions
+                    if x.op in ("sub", "slice") and x.a[0].op in ("call", "mut", "widen", "ite", "bin", "comp") \
+                            and {a[1] for a in classify(x.a[0]) if a[0] == "START"} - {p}:
+                        # an item picked out of an intermediate container that holds several START words and was not reduced
+                        # to a literal: which word the item is cannot be read off the term
+                        raise AnalysisError(f"{e.key} ({scope}): position {p} is an item of an intermediate container the interpreter "
+                                            f"did not reduce ({sym.pretty(x)[:80]}): the provenance of the value is not decided")
                 if opaque_fn is not None:
                     # a helper of the package that could not be interpreted in place (loops with early returns ...): which
                     # of its arguments the shown value comes from is not known
